@@ -19,14 +19,14 @@ func init() {
 	register(&Check{
 		ID: "C10", Level: "exploration", Primary: "pipelines", EvalCount: "pipelines_checked",
 		Rule: "pipelines <k requests> Unbind <m requests> for all k,m in 0..3 (0..8 in thorough) x {whole pipeline in one write (same TCP segment), one write per frame, byte-dribbled} x {no unbind route, unbind route registered, unbind route whose handler panics} x " +
-			"{earlier handlers finished, earlier handlers parked on a harness gate (also 63..300 of them at once), an earlier handler that panicked and was recovered} x Unbind message IDs {555, 0, 1, 99, 2^31-1} x {plain, TLS listener, StartTLS-upgraded}; the requests after the Unbind include every operation kind and a second Unbind. Oracle: the set of dispatched message IDs equals the k earlier ones; " +
+			"{earlier handlers finished, earlier handlers parked on a harness gate (also 63..300 of them at once), an earlier handler that panicked and was recovered} x Unbind message IDs {555, 0, 1, 99, 2^31-1} x {plain, TLS listener, StartTLS-upgraded}; the requests after the Unbind include every operation kind and a second Unbind; the parked handlers are search handlers or (every third case) bind handlers; two in five Unbinds carry controls (ManageDsaIT, a paging control with an empty value, an unknown critical one next to a password-expiry warning that is not a number). Oracle: the set of dispatched message IDs equals the k earlier ones; " +
 			"the unbind handler ran exactly once when registered; the strictly parsed stream up to EOF contains exactly one response per earlier request and nothing carrying the Unbind's or a later request's message ID; " +
 			"with parked handlers EOF is not seen before the gate opens and is seen after. A second scenario stops the server while an Unbind and its followers sit unread in the connection's buffer behind a held StartTLS (read-loop) handler: no answer to the Unbind, nothing behind it dispatched. A third stops the server in the window between reading an Unbind and acting on it (the window held open at gldap's own 'packet read' Debug log line through the user-supplied logger; the beginning of the shutdown observed on a second, idle connection): the unbind handler still runs exactly once. A fourth gives one Mux to two servers (plain+plain, plain+TLS) and alternates Unbind-terminated sessions between them: one handler run per session. A fifth attaches the empty mux (Server.Router) before the routes are registered, Run last. distinct_nontrivial = distinct (k, m, write mode, route, parked, transport) combinations",
 		Assume: []string{"'dispatched' is observed by recording handlers on every route kind including the default route"},
 		Phases: func(tier string, seed int64) []Phase {
 			return []Phase{{Name: "pipelines", Run: c10Run}}
 		},
-		MinObserved: []string{"pipelines_checked", "requests_after_unbind_sent", "eof_withheld_until_release_observed", "pipelines_after_a_write_fault", "pipelines_with_an_earlier_handler_panic", "unbinds_with_unusual_message_ids", "stops_with_an_unbind_pipeline_in_the_read_buffer", "stops_between_reading_an_unbind_and_acting_on_it", "unbinds_on_servers_that_share_a_mux", "second_unbinds_sent_behind_the_first", "unbinds_on_a_server_whose_routes_were_registered_after_the_mux_was_attached", "pipelines_inside_a_starttls_upgraded_session"},
+		MinObserved: []string{"pipelines_checked", "requests_after_unbind_sent", "eof_withheld_until_release_observed", "pipelines_after_a_write_fault", "pipelines_with_an_earlier_handler_panic", "unbinds_with_unusual_message_ids", "stops_with_an_unbind_pipeline_in_the_read_buffer", "stops_between_reading_an_unbind_and_acting_on_it", "unbinds_on_servers_that_share_a_mux", "second_unbinds_sent_behind_the_first", "pipelines_with_bind_handlers_parked_when_the_unbind_arrives", "unbinds_carrying_controls", "unbinds_on_a_server_whose_routes_were_registered_after_the_mux_was_attached", "pipelines_inside_a_starttls_upgraded_session"},
 	})
 }
 
@@ -471,7 +471,7 @@ func c10One(c *Ctx, pki *PKI, srvs map[string]*Srv, cs c10Case, r *Rand, idx int
 			}
 			mu.Unlock()
 			entered.Add(1)
-			if cs.Parked && o.Kind == "search" && strings.HasPrefix(string(o.DN), "park") {
+			if cs.Parked && ((o.Kind == "search" && strings.HasPrefix(string(o.DN), "park")) || (o.Kind == "bind" && strings.HasPrefix(string(o.Name), "park"))) {
 				<-gate
 			}
 			if cs.EarlierPanic && o.ID == 100 {
@@ -596,8 +596,15 @@ func c10One(c *Ctx, pki *PKI, srvs map[string]*Srv, cs c10Case, r *Rand, idx int
 			extBefore[id] = true
 		}
 		if cs.Parked {
-			// parked pipelines use searches only, so that every earlier handler can be parked
+			// parked pipelines use requests whose handler can be parked: searches, and in every third case binds (a
+			// bind in progress is no reason to treat what follows differently)
 			f = sber.Message(id, sber.Search{Base: []byte("park"), Scope: 2, Filter: sber.PresentFilter("cn"), Attrs: [][]byte{}}.Node(), nil).Encode()
+			if idx%3 == 1 {
+				f = sber.Message(id, sber.BindRequest(3, []byte("park"), []byte("p")), nil).Encode()
+				if i == 0 {
+					c.Count("pipelines_with_bind_handlers_parked_when_the_unbind_arrives", 1)
+				}
+			}
 		}
 		before[id] = true
 		frames = append(frames, f)
@@ -615,7 +622,21 @@ func c10One(c *Ctx, pki *PKI, srvs map[string]*Srv, cs c10Case, r *Rand, idx int
 	if unbindID != 555 {
 		c.Count("unbinds_with_unusual_message_ids", 1)
 	}
-	frames = append(frames, sber.Message(unbindID, sber.UnbindRequest(), nil).Encode())
+	// the Unbind may carry controls (any message may): whatever they are - well-formed, of a type gldap knows but with a
+	// value it would refuse on another operation, of an unknown type - it is still the Unbind
+	var unbindCtls []sber.Control
+	switch idx % 5 {
+	case 1:
+		unbindCtls = []sber.Control{{OID: "2.16.840.1.113730.3.4.2", Crit: true}}
+	case 2:
+		unbindCtls = []sber.Control{{OID: sber.OIDPaging, HasValue: true, Value: []byte{}}}
+	case 3:
+		unbindCtls = []sber.Control{{OID: "1.3.6.1.4.1.99999.7", Crit: true, HasValue: true, Value: []byte("x")}, {OID: "2.16.840.1.113730.3.4.5", HasValue: true, Value: []byte("soon")}}
+	}
+	if unbindCtls != nil {
+		c.Count("unbinds_carrying_controls", 1)
+	}
+	frames = append(frames, sber.Message(unbindID, sber.UnbindRequest(), unbindCtls).Encode())
 	for i := 0; i < cs.M; i++ {
 		id := int64(700 + i)
 		after[id] = true
